@@ -20,7 +20,8 @@ CONSTANTS MaxDepth,        \* number of wrappers above the base function
           AllForms         \* TRUE: every statement form at every level; FALSE: wrappers use a reduced set
 
 Targets == {"global", "local", "valparam", "refparam"}
-Shapes == {"scalar", "elem", "field", "condl", "condr", "comma"}   \* cond*/comma: lvalue (c ? l : T), (c ? T : l), (l, T) mixing in an own local
+Shapes == {"scalar", "elem", "field", "condl", "condr"}   \* cond*: lvalue (c ? l : T), (c ? T : l) mixing in an own local
+   \* (a parenthesised comma expression is not an expression of the language - commas exist in update lists and for-clauses only - so it cannot be an lvalue)
 WriteForms == {"assign", "addassign", "preinc", "postinc", "predec", "postdec"}
 StmtForms == {"plain", "if", "else", "for_body", "for_init", "for_step", "for_cond", "while_body", "while_cond",
               "do_body", "do_cond", "iter_body", "block", "local_init", "return"}
@@ -31,10 +32,12 @@ ArgModes == {"g", "l", "r"}      \* what a wrapper passes for the callee's refer
 Visits(sf) == TRUE
 
 VARIABLES fam,      \* the family declared so far: sequence of step records
-          sem, chg  \* per declared function, as above
-vars == <<fam, sem, chg>>
+          sem, chg, \* per declared function, as above
+          serr, ierr \* a declaration of the family is itself a violation: the initialiser of a function-local variable is a side-effect-free
+                     \* context too (serr: by the statement; ierr: the type checker reports `$Initialiser_must_be_side-effect_free` there)
+vars == <<fam, sem, chg, serr, ierr>>
 
-Init == fam = <<>> /\ sem = <<>> /\ chg = <<>>
+Init == fam = <<>> /\ sem = <<>> /\ chg = <<>> /\ serr = FALSE /\ ierr = FALSE
 
 (* base function: one write *)
 DeclBase ==
@@ -45,6 +48,8 @@ DeclBase ==
              \* implementation: the written symbol is collected if the statement form is visited, then locals and
              \* parameters (incl. the reference parameter) are erased
           /\ chg' = << IF Visits(sf) /\ t = "global" THEN {"g"} ELSE {} >>
+          /\ serr' = (sf = "local_init")          \* `int z = <write>;` : an initialiser that contains an assignment, whatever it writes
+          /\ ierr' = (sf = "local_init")          \* changes_any_variable() of the initialiser: any written symbol, locals included
 
 (* wrapper: calls the previous function *)
 DeclWrapper ==
@@ -59,14 +64,16 @@ DeclWrapper ==
              \* collected whether or not the callee writes it; own locals/parameters are erased afterwards
           /\ chg' = Append(chg, IF ~Visits(sf) THEN {}
                                 ELSE chg[n] \cup (IF ref /\ m = "g" THEN {"g"} ELSE {}))
+          /\ serr' = (serr \/ (sf = "local_init" /\ sem[n] # {}))          \* `int z = f(..);` : the callee writes something that is not local to it
+          /\ ierr' = (ierr \/ (sf = "local_init" /\ (chg[n] # {} \/ ref)))  \* callee summary non-empty, or an argument bound to a non-const reference
 
 Next == DeclBase \/ DeclWrapper
 Spec == Init /\ [][Next]_vars
 
 (* the context expression: calls the newest function, passing the global for a reference parameter *)
 Top == Len(fam)
-MayWrite == fam # <<>> /\ (sem[Top] # {})                 \* G, or P bound to the global by the context's call
-Rejects == fam # <<>> /\ (chg[Top] # {} \/ fam[1].target = "refparam")   \* the call itself passes g to a non-const reference
+MayWrite == fam # <<>> /\ (sem[Top] # {} \/ serr)         \* G, or P bound to the global by the context's call; or a declaration of the family already violates
+Rejects == fam # <<>> /\ (chg[Top] # {} \/ fam[1].target = "refparam" \/ ierr)   \* the call itself passes g to a non-const reference
 Sound == MayWrite => Rejects
 (* the analysis may over-approximate only through reference parameters (documented conservatism) *)
 Precise == (Rejects /\ ~MayWrite) => fam[1].target = "refparam"
